@@ -268,3 +268,23 @@ def pathjoin(a, b):
 def dirname(a):
     import os
     return os.path.dirname(a)
+
+
+@native
+def pairhash(blocks):
+    import hashlib
+    return [hashlib.sha256(bytes(blocks[i]) + bytes(blocks[i + 1])).digest() for i in range(0, len(blocks) - 1, 2)]
+
+
+@native
+def mroot(blocks):
+    blocks = list(blocks)
+    while len(blocks) > 1:
+        blocks = pairhash(blocks)
+    return bytes(blocks[0])
+
+
+@native
+def first_part(p):
+    from pathlib import Path
+    return Path(p).parts[0]
